@@ -75,11 +75,11 @@ def check_step(item):
             res['violations'].append(dict(key=name + ':exception', text='%s raises %r' % (name, out[1]), case=case(mod)))
             return
         diffs, names = invariant_breaks(m)
-        r, mod = p.check(z3.Or(*diffs), model=True)
+        r, mod, which_ = p.check_any(diffs, names)
         if r == 'unknown':
             res['inconclusive'].append(name); return
         if r == 'sat':
-            which = ', '.join(n for n, d in zip(names, diffs) if z3.is_true(mod.eval(d, model_completion=True)))
+            which = ', '.join(which_)
             res['violations'].append(dict(key='%s:%s' % (name, which), text='%s: %s' % (name, which), case=case(mod)))
             return
         fo = p.failed_obligations()
